@@ -668,4 +668,6 @@ def _restart(stream, pid):
     buf = io.BytesIO()
     P(buf, protocol=pickle.HIGHEST_PROTOCOL).dump(stream)
     buf.seek(0)
-    return U(buf).load()
+    from sim import universe as _u
+    with _u.no_compiled_cache_growth():
+        return U(buf).load()
